@@ -15,6 +15,8 @@
 package redis
 
 import (
+	"errors"
+	"math"
 	"strconv"
 )
 
@@ -36,6 +38,9 @@ func (server *Server) registerSugarExecutors() {
 			currVal = retVal
 		}
 		newVal := currVal + val
+		if (0 < val && newVal < currVal) || (val < 0 && currVal < newVal) {
+			return nil, errors.New("increment or decrement would overflow")
+		}
 		opt := newDefaultSetOption()
 		_, err = server.userCommandHandler.Set(conn, key, strconv.Itoa(newVal), opt)
 		if err != nil {
@@ -83,6 +88,9 @@ func (server *Server) registerSugarExecutors() {
 		inc, err := nextIntegerArgument(cmd, "decrement", args)
 		if err != nil {
 			return nil, err
+		}
+		if inc == math.MinInt {
+			return nil, errors.New("decrement would overflow")
 		}
 		return incdecExecutor(conn, cmd, key, -inc)
 	})
